@@ -46,7 +46,7 @@ def components_actions():
 
 
 def strategy(tier):
-    return _spec(tier)
+    return gens.with_pre(_spec(tier))
 
 
 def exhaustive(tier):
@@ -65,6 +65,8 @@ def exhaustive(tier):
 
 
 def check(spec, stats):
+    if sim.set_pre(spec):
+        stats.label("pre_elaborated")
     leaf = spec["leaf"]
     a, s = leaf["a"], leaf["s"]
     w = gens.shape_width(s)
